@@ -333,9 +333,19 @@ def run_shard(shard, tier, acc):
             for sig, d in viols:
                 acc.violation(sig, case, d)
         return
+    # One directory and ONE input path for the whole shard: every layout replaces the BAM (and its index) at the same path,
+    # as a pipeline that regenerates its input does. Anything the code under test remembers about a path between runs
+    # (contig tables, index statistics) is then stale.
+    shard_dir = tempfile.mkdtemp(prefix='c05_', dir='/dev/shm')
     for lay in shard[1]:
         for um in bounds(tier)['unmapped_pairs']:
-            d = tempfile.mkdtemp(prefix='c05_', dir='/dev/shm')
+            d = shard_dir
+            for fn in os.listdir(d):
+                fp = os.path.join(d, fn)
+                if os.path.isdir(fp):
+                    shutil.rmtree(fp, ignore_errors=True)
+                else:
+                    os.remove(fp)
             try:
                 inp_path = os.path.join(d, 'in.bam')
                 truth = build_bam(inp_path, lay, um)
@@ -363,7 +373,8 @@ def run_shard(shard, tier, acc):
                             viols, info = run_on(d, inp_path, inp, truth, c)
                             _report(acc, c, viols, info, len(inp))
             finally:
-                shutil.rmtree(d, ignore_errors=True)
+                pass
+    shutil.rmtree(shard_dir, ignore_errors=True)
 
 
 def _report(acc, case, viols, info, nrec):
